@@ -100,11 +100,11 @@ func init() {
 		"errors.New":                                effNonNilErr,
 		"strings.LastIndex":                         effStringsIndex,
 		"strings.HasPrefix":                         ufEffect("strings.HasPrefix", sBool),
-		"strings.ToLower":                           ufEffect("strings.ToLower", sStr),
-		"strings.TrimSpace":                         ufEffect("strings.TrimSpace", sStr),
+		"strings.ToLower": keepsAbsence("strings.ToLower"),
+		"strings.TrimSpace": keepsAbsence("strings.TrimSpace"),
 		"strings.Trim":                              ufEffect("strings.Trim", sStr),
 		"path.Clean":                                ufEffect("path.Clean", sStr),
-		"strings.Cut":                               ufTuple("strings.Cut", sStr, sStr, sBool),
+		"strings.Cut": effStringsCut,
 		"strconv.Atoi":                              ufTuple("strconv.Atoi", sInt, sIface),
 		"strconv.ParseInt":                          ufTuple("strconv.ParseInt", sInt, sIface),
 		"(*regexp.Regexp).MatchString":              effRegexpMatch,
@@ -176,6 +176,7 @@ func init() {
 		"(github.com/opencontainers/go-digest.Algorithm).Digester":   effNewDigester,
 		"os.Chtimes": effChtimes,
 		"os.WriteFile": effWriteFile,
+		"os.Rename":    effRename,
 		// paths (C16)
 		"path/filepath.Join": effPathJoin,
 		"os.CreateTemp":      effCreateTemp,
@@ -962,4 +963,63 @@ func effWriteFile(fe *FnEnc, st *State, callee *ssa.Function, args []RV, pos tok
 	p := fe.val(args[0])
 	fe.setComp(st, "WROTE", srt, tIte(tEq(err, nilIface), tStore(h, p, tArith("+", tSel(h, p), tInt(1))), h))
 	return one(err)
+}
+
+
+// os.Rename(old, new): on success one more file has been moved to `new` (ghost counter RENAMED per destination path)
+func effRename(fe *FnEnc, st *State, callee *ssa.Function, args []RV, pos token.Pos) []RV {
+	srt := arrSort(sStr, sInt)
+	h := fe.getComp(st, "RENAMED", srt)
+	if fe.dry {
+		fe.setComp(st, "RENAMED", srt, h)
+		return one(nilIface)
+	}
+	err := fe.fresh("rename.err", sIface)
+	fe.emit("(assert (=> (= (i_typ " + err.S + ") 0) (= (i_val " + err.S + ") 0)))")
+	p := fe.val(args[1])
+	fe.setComp(st, "RENAMED", srt, tIte(tEq(err, nilIface), tStore(h, p, tArith("+", tSel(h, p), tInt(1))), h))
+	return one(err)
+}
+
+
+// str.contains(s, c): c occurs in s (uninterpreted; the facts below are all that is known about it)
+func declContains(fe *FnEnc) {
+	fe.declFun("str.contains", []string{sStr, sStr}, sBool)
+}
+
+// strings.Cut(s, sep): the part before the first occurrence of sep does not contain sep
+func effStringsCut(fe *FnEnc, st *State, callee *ssa.Function, args []RV, pos token.Pos) []RV {
+	r := ufTuple("strings.Cut", sStr, sStr, sBool)(fe, st, callee, args, pos)
+	if !fe.dry {
+		declContains(fe)
+		fe.emit(fmt.Sprintf("(assert (not (str.contains %s %s)))", r[0].T.S, fe.val(args[1]).S))
+	}
+	return r
+}
+
+// keepsAbsence: ToLower / TrimSpace never introduce a character that is neither a letter nor white space: for every
+// literal known so far that consists of such characters only, absence in the argument means absence in the result
+func keepsAbsence(name string) effectFn {
+	uf := ufEffect(name, sStr)
+	return func(fe *FnEnc, st *State, callee *ssa.Function, args []RV, pos token.Pos) []RV {
+		r := uf(fe, st, callee, args, pos)
+		if fe.dry {
+			return r
+		}
+		declContains(fe)
+		x := fe.val(args[0])
+		for _, ln := range fe.litOrder {
+			lit := fe.lits[ln]
+			ok := lit != ""
+			for _, c := range lit {
+				if (c >= 'a' && c <= 'z') || (c >= 'A' && c <= 'Z') || c == ' ' || c == '\t' || c == '\n' || c == '\r' || c > 127 {
+					ok = false
+				}
+			}
+			if ok {
+				fe.emit(fmt.Sprintf("(assert (=> (not (str.contains %s %s)) (not (str.contains %s %s))))", x.S, ln, r[0].T.S, ln))
+			}
+		}
+		return r
+	}
 }
